@@ -104,7 +104,7 @@ CLAIMED = {
          "C11_identity (every returned message carries the identity decoded from the most recent decodable claim of its own source, or none), C11_srcmap (the map IS that specification after any history), C11_isolation (a call from one address never changes another address's entry, from any state), C11_manufacturer (a returned non-claim message of a claimed source passed the exclude/include lists case-insensitively; unknown manufacturer passes no include list), C11_discovery (network map on, inside the window: nothing but claims from an unclaimed source). The clock is an input bit per call (inside / outside the window). C11_*_for_this_code (OblC10.v, per run): the same theorems instantiated with the regenerated tables, no database hypothesis left.",
          None, "DESIGN.md §5 C11"),
  "C12": ("Coq proof (induction over chunk lists and over runs of a labelled transition system of StreamReader + receive task + queue + consumer, with a delivery invariant and a progress measure) of a hand model + kernel-evaluated trace correspondence with the real clients on a virtual-time event loop; serial framing by C20_chunking",
-         "C12_chunking_ebyte / _lines (packets cut out are independent of the segmentation), C12_chunking_any_schedule (and of the interleaving of arrivals, receive steps and callbacks), C12_delivery (in EVERY run the callback has been invoked on a prefix of the expected message list, rest queued in order: nothing else, nothing twice, nothing reordered, whatever callbacks return/raise/suspend; at quiescence exactly the list), C12_decode_error_skipped, C12_progress_enabled / _measure (delivery cannot get stuck), stability lemmas for readline/readexactly. The decoder is a universally quantified state-passing function. Waveshare framing: C20's theorems; its queue/consumer is the same model.",
+         "C12_chunking_ebyte / _lines (packets cut out are independent of the segmentation), C12_chunking_any_schedule (and of the interleaving of arrivals, receive steps and callbacks), C12_delivery (in EVERY run the callback has been invoked on a prefix of the expected message list, rest queued in order: nothing else, nothing twice, nothing reordered, whatever callbacks return/raise/suspend; at quiescence exactly the list), C12_decode_error_skipped, C12_progress_enabled / _measure (delivery cannot get stuck), stability lemmas for readline/readexactly. The decoder is a universally quantified state-passing function. Waveshare framing: C20's theorems (C12_chunking_serial); its queue/consumer is the same model. C12_delivery_ebyte_for_this_code (tools/templates/OblC12.v, per run): the same theorem with `decode` instantiated by the composed decoder of the regenerated tables (front-end, filters, identity, reassembly, dispatcher, per-definition decoder) for every filter configuration and initial decoder state.",
          None, "DESIGN.md §5 C12"),
  "C15": ("Coq proof (structural induction over field lists of the tree printer/parser; run induction for the dump) of a hand model of to_json/from_json above orjson's text layer and of the dump filter + kernel-evaluated correspondence on decoded messages of all field types",
          "C15_fields_partial (for every message without a non-finite double: PGN, id, addressing and per field id, value and raw value survive to_json/from_json up to the stated renderings), C15_full_is_false (the unguarded statement is refuted: NaN -> null -> None, known finding), C15_fields (what every attribute looks like without the guard), C15_reencode (ANY encoder reading only JSON-exact components yields the same bytes or the same failure from the parsed message), C15_dump / C15_dump_filter (the dump holds exactly the JSON lines of returned messages matching number / lower-cased id / empty filter, in order). PARTIAL: orjson's text layer is assumed (exercised by re-parsing every text with the standard json module).",
